@@ -272,8 +272,6 @@ func (f *VaultFake) LogLen() int { f.mu.Lock(); defer f.mu.Unlock(); return len(
 func (f *VaultFake) WaitLog(deadline time.Duration, pred func(log []VaultEvent) bool) bool {
 	f.mu.Lock()
 	defer f.mu.Unlock()
-	t := time.AfterFunc(deadline, func() { f.mu.Lock(); f.cond.Broadcast(); f.mu.Unlock() })
-	defer t.Stop()
 	end := time.Now().Add(deadline)
 	for {
 		if pred(f.log) {
@@ -282,7 +280,10 @@ func (f *VaultFake) WaitLog(deadline time.Duration, pred func(log []VaultEvent) 
 		if f.closed || !time.Now().Before(end) {
 			return false
 		}
+		// wake up when the deadline has passed for sure (a timer set before `end` is computed may fire too early)
+		t := time.AfterFunc(time.Until(end)+time.Millisecond, func() { f.mu.Lock(); f.cond.Broadcast(); f.mu.Unlock() })
 		f.cond.Wait()
+		t.Stop()
 	}
 }
 
